@@ -239,3 +239,357 @@ Proof.
   vm_compute. repeat split.
 Qed.
 Print Assumptions C02_decode_refines_unrestricted_refuted.
+
+(* ==================================================================================================================
+   GAP CLOSURE (clause-by-clause table: header of Proofs/C02GapA.v).
+   ================================================================================================================== *)
+From BP Require Import Model.C02GapDef Proofs.C02GapA Proofs.C02GapB Proofs.C02GapC Proofs.C02GapE.
+From BP Require Import Model.C17Typed Model.C17Nested Model.Len Model.History Model.C07Ops Model.C01Reach Model.C01Parse.
+
+(* ---- (b) C02_decode_refines at ANY depth above the length of the input (the depth index S |bs| of the headline
+        theorem is one admissible choice; two encodings of one message can be compared at a common depth) ---- *)
+Theorem C02_decode_refines_depth : forall sc c bs rs a n,
+  wf_schema sc = true -> builtins_std sc = true ->
+  wire_ok bs rs -> (length bs < n)%nat ->
+  sem n sc c rs = Some a -> supported n sc c rs = true ->
+  exists m', parse sc c bs = Ok m' /\ abs_obj sc m' = a.
+Proof. exact decode_refines_depth. Qed.
+Print Assumptions C02_decode_refines_depth.
+
+(* ---- (c4) non-minimal varints: two serialisations of the same records (they differ in the padding of tags, lengths
+        and value varints only) are decoded to the same message ---- *)
+Theorem C02_same_records_same_message : forall sc c bs bs' rs a n,
+  wf_schema sc = true -> builtins_std sc = true ->
+  wire_ok bs rs -> wire_ok bs' rs -> (length bs < n)%nat -> (length bs' < n)%nat ->
+  sem n sc c rs = Some a -> supported n sc c rs = true ->
+  exists m m', parse sc c bs = Ok m /\ parse sc c bs' = Ok m' /\ abs_obj sc m = a /\ abs_obj sc m' = a.
+Proof. exact same_records_same_message. Qed.
+Print Assumptions C02_same_records_same_message.
+
+(* ---- (c) the SPECIFICATION reads the alternative encodings of C02's list as the same message.  All four are statements
+        about Spec/Wire.v alone, at every depth n, for every schema (no well-formedness needed). ---- *)
+(* (c1) any field order: [reorder] = exchanges of neighbouring records that are not both unknown and, when both are
+        delivered, go to different fields outside a common oneof group (the permutation of wiregen.reencode) *)
+Theorem C02_sem_reorder : forall n sc c rs rs',
+  reorder sc (cfields (get_class sc c)) rs rs' -> sem n sc c rs = sem n sc c rs'.
+Proof. exact sem_reorder. Qed.
+Print Assumptions C02_sem_reorder.
+
+(* (c6) an unknown field (undeclared number, or a wire type the declared field does not take) inserted anywhere:
+        defined exactly when it was, every declared field reads the same, the unknown list gains the record in place *)
+Theorem C02_sem_unknown_insert : forall n sc c pre u post,
+  slot sc (cfields (get_class sc c)) u = None ->
+  match sem n sc c (pre ++ post) with
+  | Some (AMsg fields unk) =>
+      sem n sc c (pre ++ u :: post) =
+      Some (AMsg fields (unk_of sc (cfields (get_class sc c)) pre ++ u :: unk_of sc (cfields (get_class sc c)) post)) /\
+      unk = unk_of sc (cfields (get_class sc c)) pre ++ unk_of sc (cfields (get_class sc c)) post
+  | Some _ => False
+  | None => sem n sc c (pre ++ u :: post) = None
+  end.
+Proof. exact sem_unknown_insert. Qed.
+Print Assumptions C02_sem_unknown_insert.
+
+(* (c5) repeated occurrences of a singular scalar: an earlier occurrence that is valid by itself is overridden by any
+        later occurrence (without "valid by itself" the reference rejects the message: bad UTF-8 in the earlier string) *)
+Theorem C02_sem_duplicate_scalar : forall n sc c pre r post i f,
+  slot sc (cfields (get_class sc c)) r = Some (i, f) -> singular_scalar f = true ->
+  is_some (scalar_of (fty f) (snd r)) = true ->
+  later_for sc (cfields (get_class sc c)) i post = true ->
+  sem n sc c (pre ++ r :: post) = sem n sc c (pre ++ post).
+Proof. exact sem_duplicate_scalar. Qed.
+Print Assumptions C02_sem_duplicate_scalar.
+
+(* (c2) (c3) packed / unpacked / chunk split / mixed forms / padded packed elements: inside a repeated field a non-empty
+        run of records may be replaced by any other non-empty run that carries the same elements *)
+Theorem C02_sem_repeated_rewrite : forall n sc c pre mid mid' post i f,
+  all_slot sc (cfields (get_class sc c)) i f mid -> all_slot sc (cfields (get_class sc c)) i f mid' ->
+  mid <> [] -> mid' <> [] -> card_of f = Repeated ->
+  (forall nested, elems_all nested f mid = elems_all nested f mid') ->
+  sem n sc c (pre ++ mid ++ post) = sem n sc c (pre ++ mid' ++ post).
+Proof. exact sem_repeated_rewrite. Qed.
+Print Assumptions C02_sem_repeated_rewrite.
+
+(* the general form behind the last two: only field i's payload list changes, and its interpretation does not *)
+Theorem C02_sem_local : forall n sc c rs rs' i f,
+  nth_error (cfields (get_class sc c)) i = Some f ->
+  (forall nested, forallb (record_valid nested sc (cfields (get_class sc c))) rs =
+                  forallb (record_valid nested sc (cfields (get_class sc c))) rs') ->
+  unk_of sc (cfields (get_class sc c)) rs = unk_of sc (cfields (get_class sc c)) rs' ->
+  (forall k fk, nth_error (cfields (get_class sc c)) k = Some fk -> k <> i ->
+                proj sc (cfields (get_class sc c)) k fk rs = proj sc (cfields (get_class sc c)) k fk rs') ->
+  (forall nested, interp_field nested sc f (proj sc (cfields (get_class sc c)) i f rs) =
+                  interp_field nested sc f (proj sc (cfields (get_class sc c)) i f rs')) ->
+  sem n sc c rs = sem n sc c rs'.
+Proof. exact sem_local. Qed.
+Print Assumptions C02_sem_local.
+
+(* ---- ... and the decoder follows: rs' read by the specification as rs (any chain of the rewrites above), both inside
+        [supported]: the bytes of rs' are decoded to the message the bytes of rs are decoded to ---- *)
+Theorem C02_alt_encoding_decodes : forall sc c bs bs' rs rs' a n,
+  wf_schema sc = true -> builtins_std sc = true ->
+  wire_ok bs rs -> wire_ok bs' rs' -> (length bs < n)%nat -> (length bs' < n)%nat ->
+  sem n sc c rs = Some a -> sem n sc c rs' = sem n sc c rs ->
+  supported n sc c rs = true -> supported n sc c rs' = true ->
+  exists m m', parse sc c bs = Ok m /\ parse sc c bs' = Ok m' /\ abs_obj sc m' = abs_obj sc m /\ abs_obj sc m = a.
+Proof. exact alt_encoding_decodes. Qed.
+Print Assumptions C02_alt_encoding_decodes.
+
+(* ---- (d) composition with C01: every supported alternative encoding of bytes(m) is decoded to an object with the
+        abstraction of parse(bytes(m)) = norm_obj m; under enc_faithful that is abs_obj m itself ---- *)
+Theorem C02_alt_of_encoding : forall sc m bs bs' rs' n,
+  c01_schema_ok sc = true -> c01_value_ok sc m = true -> enc_obj sc m = Ok bs -> Zlength bs < 2 ^ 35 ->
+  wire_ok bs' rs' -> (length bs < n)%nat -> (length bs' < n)%nat ->
+  (forall rs, wire_ok bs rs -> sem n sc (ocls m) rs' = sem n sc (ocls m) rs) ->
+  supported n sc (ocls m) rs' = true ->
+  parse sc (ocls m) bs = Ok (norm_obj sc m) /\
+  exists m', parse sc (ocls m) bs' = Ok m' /\ abs_obj sc m' = abs_obj sc (norm_obj sc m) /\
+             (enc_faithful sc m = true -> abs_obj sc m' = abs_obj sc m).
+Proof. exact alt_of_encoding. Qed.
+Print Assumptions C02_alt_of_encoding.
+
+(* ---- (d) composition with C17_accept_iff: the specification's legal, supported strings lie inside the decoder's exact
+        acceptance set, and a string outside [valid] is rejected by the specification or outside [supported] ---- *)
+Theorem C02_spec_legal_is_valid : forall sc c bs rs a n,
+  wf_schema sc = true -> builtins_std sc = true -> has_builtins sc -> entries_agree sc = true ->
+  wire_ok bs rs -> (length bs < n)%nat ->
+  sem n sc c rs = Some a -> supported n sc c rs = true ->
+  valid sc c bs.
+Proof. exact spec_legal_is_valid. Qed.
+Print Assumptions C02_spec_legal_is_valid.
+
+Theorem C02_invalid_not_spec_legal : forall sc c bs rs n,
+  wf_schema sc = true -> builtins_std sc = true -> has_builtins sc -> entries_agree sc = true ->
+  wire_ok bs rs -> (length bs < n)%nat -> ~ valid sc c bs ->
+  sem n sc c rs = None \/ supported n sc c rs = false.
+Proof. exact invalid_not_spec_legal. Qed.
+Print Assumptions C02_invalid_not_spec_legal.
+
+(* ---- (a) "any message": the value hypothesis of C02_encode_legal holds for every object a public-API history builds
+        (C01_reachable_value_ok_parse: constructor, assignments at any depth, from_dict, copies, pickle, parse of clean
+        bytes), and len(m) is the length of those bytes (C09_len) ---- *)
+Theorem C02_encode_legal_reachable : forall sc c ops m,
+  c01_schema_ok sc = true -> hist_ok op_value_ok_p sc (new sc c) ops = true ->
+  run7 sc (new sc c) ops = Ok m ->
+  exists bs, enc_obj sc m = Ok bs /\ len_obj sc m = Ok (Zlength bs) /\
+    (Zlength bs < 2 ^ 35 ->
+     exists rs, wire_ok bs rs /\
+       forall n, (length bs < n)%nat ->
+         sem n sc (ocls m) rs = Some (abs_obj sc (norm_obj sc m)) /\ supported n sc (ocls m) rs = true).
+Proof. exact encode_legal_reachable. Qed.
+Print Assumptions C02_encode_legal_reachable.
+
+(* ---- exactness of [supported]: each of its scope limits is needed (the merge witness is above).  In every case the
+        record list is legal, sem is defined, parse succeeds, and the two values differ. ---- *)
+Definition lim_differs (bs : list byte) : Prop :=
+  exists rs a m', parse_wire bs = Some rs /\ sem (S (length bs)) ex_sc 11 rs = Some a /\ parse ex_sc 11 bs = Ok m' /\
+    cv_eqb (cv_of_aval (abs_obj ex_sc m')) (cv_of_aval a) = false /\ supported (S (length bs)) ex_sc 11 rs = false.
+Ltac lim_witness bs :=
+  let rs := eval vm_compute in (match parse_wire bs with Some rs => rs | None => [] end) in
+  let a := eval vm_compute in (match sem (S (length bs)) ex_sc 11 rs with Some a => a | None => ANone end) in
+  let m := eval vm_compute in (match parse ex_sc 11 bs with Ok m => m | Err _ => new ex_sc 11 end) in
+  exists rs, a, m; vm_compute; repeat split.
+
+(* a map entry that carries a third field: the reference sets the entry aside as an unknown field *)
+Theorem C02_map_entry_extra_refuted : lim_differs [x2a; x07; x0a; x01; x6b; x10; x09; x18; x01].
+Proof. lim_witness [x2a; x07; x0a; x01; x6b; x10; x09; x18; x01]. Qed.
+Print Assumptions C02_map_entry_extra_refuted.
+(* an unknown field inside a wrapper payload: the bare scalar cannot carry it *)
+Theorem C02_wrapper_unknown_refuted : lim_differs [x42; x04; x08; x03; x18; x01].
+Proof. lim_witness [x42; x04; x08; x03; x18; x01]. Qed.
+Print Assumptions C02_wrapper_unknown_refuted.
+(* a Timestamp with nanos = 1: datetime holds microseconds *)
+Theorem C02_timestamp_inexact_refuted : lim_differs [x4a; x04; x08; x01; x10; x01].
+Proof. lim_witness [x4a; x04; x08; x01; x10; x01]. Qed.
+Print Assumptions C02_timestamp_inexact_refuted.
+(* a varint of 33 bits on a uint32 value: the reference keeps the low 32 bits *)
+Theorem C02_wide_varint_refuted : lim_differs [x42; x06; x08; xff; xff; xff; xff; x1f].
+Proof. lim_witness [x42; x06; x08; xff; xff; xff; xff; x1f]. Qed.
+Print Assumptions C02_wide_varint_refuted.
+
+(* ---- exactness of [enc_faithful] (besides -0.0, above): the conjuncts that can fail for a c01_value_ok message ---- *)
+Definition pp_ := PPlaceholder.
+Definition faith_differs (m : obj) : Prop :=
+  c01_schema_ok ex_sc = true /\ c01_value_ok ex_sc m = true /\ enc_faithful ex_sc m = false /\
+  cv_eqb (cv_of_aval (abs_obj ex_sc (norm_obj ex_sc m))) (cv_of_aval (abs_obj ex_sc m)) = false.
+(* a plain Timestamp field at the epoch is not written (datetime has no presence) *)
+Theorem C02_encode_denotes_epoch_refuted :
+  faith_differs (Obj 11 [PInt 5; pp_; pp_; pp_; pp_; pp_; pp_; pp_; PDatetime 0] true [] [None]).
+Proof. vm_compute. repeat split. Qed.
+Print Assumptions C02_encode_denotes_epoch_refuted.
+(* K12: a plain sub-message with content but _serialized_on_wire down is written although betterproto reports it unset *)
+Theorem C02_encode_denotes_k12_refuted :
+  faith_differs (Obj 11 [PInt 5; pp_; pp_; pp_; pp_;
+                         PMsg (Obj 11 [PInt 1; pp_; pp_; pp_; pp_; pp_; pp_; pp_; pp_] false [] [None]);
+                         pp_; pp_; pp_] true [] [None]).
+Proof. vm_compute. repeat split. Qed.
+Print Assumptions C02_encode_denotes_k12_refuted.
+
+(* ---- non-vacuity of the gap theorems (class 11 of ex_sc: a = 1 int32, r = 2 repeated int32, oneof {s = 3, n = 4},
+        m = 5 map, u = 6 message, e = 7 enum, w = 8 wrapper, t = 9 Timestamp) ---- *)
+Definition ex_fs := cfields (get_class ex_sc 11).
+
+Example C02_decode_refines_depth_nonvacuous :
+  match parse_wire ex_bs with
+  | Some rs => (length ex_bs < 100)%nat /\ is_some (sem 100 ex_sc 11 rs) = true /\ supported 100 ex_sc 11 rs = true
+  | None => False
+  end.
+Proof. vm_compute. repeat split; repeat constructor. Qed.
+
+(* the same records with the value of a padded (08 85 00) and canonical (08 05) *)
+Example C02_same_records_nonvacuous :
+  parse_wire [x08; x85; x00; x10; x03] = parse_wire [x08; x05; x10; x03] /\
+  parse_wire [x08; x05; x10; x03] = Some [(1, Varint 5); (2, Varint 3)] /\
+  sem 9 ex_sc 11 [(1, Varint 5); (2, Varint 3)] <> None /\ supported 9 ex_sc 11 [(1, Varint 5); (2, Varint 3)] = true.
+Proof. vm_compute. repeat split; discriminate. Qed.
+
+Example C02_sem_reorder_nonvacuous :
+  indep ex_sc ex_fs (1, Varint 5) (2, Varint 3) = true /\
+  indep ex_sc ex_fs (3, Len [x41]) (4, Varint 7) = false /\            (* members of one oneof group stay in order *)
+  indep ex_sc ex_fs (75, Varint 1) (76, Varint 1) = false /\           (* so do unknown fields *)
+  reorder ex_sc ex_fs ([(9, Len [x08; x01])] ++ (1, Varint 5) :: (2, Varint 3) :: [(75, Varint 1)])
+                      ([(9, Len [x08; x01])] ++ (2, Varint 3) :: (1, Varint 5) :: [(75, Varint 1)]) /\
+  sem 9 ex_sc 11 [(9, Len [x08; x01]); (1, Varint 5); (2, Varint 3); (75, Varint 1)] <> None.
+Proof.
+  split; [vm_compute; reflexivity|]. split; [vm_compute; reflexivity|]. split; [vm_compute; reflexivity|].
+  split; [apply ro_swap; vm_compute; reflexivity | vm_compute; discriminate].
+Qed.
+
+Example C02_sem_unknown_insert_nonvacuous :
+  slot ex_sc ex_fs (75, Varint 1) = None /\ slot ex_sc ex_fs (1, Fixed32 [x00; x00; x00; x00]) = None /\
+  sem 9 ex_sc 11 ([(1, Varint 5)] ++ [(2, Varint 3)]) <> None.
+Proof. vm_compute. repeat split; discriminate. Qed.
+
+Example C02_sem_duplicate_scalar_nonvacuous :
+  slot ex_sc ex_fs (1, Varint 9) = Some (0%nat, nth 0 ex_fs (plain_field [] 2 TBytes)) /\
+  singular_scalar (nth 0 ex_fs (plain_field [] 2 TBytes)) = true /\
+  is_some (scalar_of TInt32 (Varint 9)) = true /\
+  later_for ex_sc ex_fs 0 [(2, Varint 3); (1, Varint 5)] = true /\
+  sem 9 ex_sc 11 ([] ++ (1, Varint 9) :: [(2, Varint 3); (1, Varint 5)]) <> None /\
+  singular_scalar (nth 2 ex_fs (plain_field [] 2 TBytes)) = false.         (* a oneof member is not covered by this theorem *)
+Proof. vm_compute. repeat split; discriminate. Qed.
+
+(* r = [1, 2] packed in one chunk  ~  element 1 unpacked, then a packed chunk with element 2 as a padded varint *)
+Example C02_sem_repeated_rewrite_nonvacuous :
+  let f := nth 1 ex_fs (plain_field [] 2 TBytes) in
+  let mid := [(2, Len [x01; x02])] in
+  let mid' := [(2, Varint 1); (2, Len [x82; x00])] in
+  all_slot ex_sc ex_fs 1 f mid /\ all_slot ex_sc ex_fs 1 f mid' /\ card_of f = Repeated /\
+  (forall nested, elems_all nested f mid = elems_all nested f mid') /\
+  (forall nested, elems_all nested f mid = Some [AInt 1; AInt 2]) /\
+  sem 9 ex_sc 11 ([(1, Varint 5)] ++ mid ++ [(2, Varint 3)]) <> None.
+Proof.
+  cbv zeta. split; [intros r [<-|[]]; vm_compute; reflexivity|].
+  split; [intros r [<-|[<-|[]]]; vm_compute; reflexivity|].
+  split; [vm_compute; reflexivity|]. split; [intros nested; vm_compute; reflexivity|].
+  split; [intros nested; vm_compute; reflexivity | vm_compute; discriminate].
+Qed.
+
+(* bytes(m) = 08 05 12 02 01 02 (a = 5, r = [1, 2] packed) against r unpacked first, then a as a padded varint *)
+Definition ex_small : obj := Obj 11 [PInt 5; PList [PInt 1; PInt 2]; pp_; pp_; pp_; pp_; pp_; pp_; pp_] true [] [None].
+Definition ex_small_alt : list byte := [x10; x01; x10; x02; x08; x85; x00].
+Example C02_alt_of_encoding_nonvacuous :
+  c01_schema_ok ex_sc = true /\ c01_value_ok ex_sc ex_small = true /\ enc_faithful ex_sc ex_small = true /\
+  enc_obj ex_sc ex_small = Ok [x08; x05; x12; x02; x01; x02] /\
+  parse_wire ex_small_alt = Some [(2, Varint 1); (2, Varint 2); (1, Varint 5)] /\
+  supported 9 ex_sc 11 [(2, Varint 1); (2, Varint 2); (1, Varint 5)] = true /\
+  (forall rs, wire_ok [x08; x05; x12; x02; x01; x02] rs ->
+              sem 9 ex_sc 11 [(2, Varint 1); (2, Varint 2); (1, Varint 5)] = sem 9 ex_sc 11 rs) /\
+  sem 9 ex_sc 11 [(2, Varint 1); (2, Varint 2); (1, Varint 5)] = Some (abs_obj ex_sc ex_small).
+Proof.
+  split; [vm_compute; reflexivity|]. split; [vm_compute; reflexivity|]. split; [vm_compute; reflexivity|].
+  split; [vm_compute; reflexivity|]. split; [vm_compute; reflexivity|]. split; [vm_compute; reflexivity|].
+  split; [|vm_compute; reflexivity].
+  intros rs W. apply C02_wire_ok_parse in W. vm_compute in W. injection W as <-. vm_compute. reflexivity.
+Qed.
+
+Example C02_spec_legal_is_valid_nonvacuous :
+  has_builtins ex_sc /\ entries_agree ex_sc = true.
+Proof. split; [eexists; reflexivity | vm_compute; reflexivity]. Qed.
+
+Example C02_encode_legal_reachable_nonvacuous :
+  let ops := [OConstruct [(0%nat, PInt 5); (1%nat, PList [PInt 1; PInt 2])]; OBase (OSet [] 3 (PInt 7));
+              OBase (OParse [x10; x03; x32; x02; x08; x01])] in
+  hist_ok op_value_ok_p ex_sc (new ex_sc 11) ops = true /\
+  match run7 ex_sc (new ex_sc 11) ops with
+  | Ok m => match enc_obj ex_sc m with Ok bs => (8 < length bs)%nat | Err _ => False end
+  | Err _ => False
+  end.
+Proof. vm_compute. repeat split; repeat constructor. Qed.
+
+(* ---- (c3) (c2) the two named instances of C02_sem_repeated_rewrite, for every packable type and every payload ---- *)
+From BP Require Import Proofs.C02GapD.
+
+(* the elements of a packed payload b1 ++ b2 whose first part is a whole number of elements *)
+Theorem C02_unpack_app : forall t b1 b2 l1,
+  unpack t b1 = Some l1 -> unpack t (b1 ++ b2) = (let? l2 := unpack t b2 in Some (l1 ++ l2)).
+Proof. exact unpack_app. Qed.
+Print Assumptions C02_unpack_app.
+
+(* a packed record split into two chunks at an element boundary (iterate for more chunks) *)
+Theorem C02_sem_chunk_split : forall n sc c pre num b1 b2 post i f,
+  slot sc (cfields (get_class sc c)) (num, Len (b1 ++ b2)) = Some (i, f) ->
+  card_of f = Repeated -> packable (fty f) = true -> is_some (unpack (fty f) b1) = true ->
+  sem n sc c (pre ++ (num, Len (b1 ++ b2)) :: post) = sem n sc c (pre ++ (num, Len b1) :: (num, Len b2) :: post).
+Proof. exact sem_chunk_split. Qed.
+Print Assumptions C02_sem_chunk_split.
+
+(* one packed record against any non-empty run of records of the field with the same elements (all unpacked, mixed,
+   chunked, elements as padded varints) *)
+Theorem C02_sem_packed_toggle : forall n sc c pre num b mid' post i f l,
+  slot sc (cfields (get_class sc c)) (num, Len b) = Some (i, f) ->
+  card_of f = Repeated -> packable (fty f) = true -> unpack (fty f) b = Some l ->
+  all_slot sc (cfields (get_class sc c)) i f mid' -> mid' <> [] ->
+  (forall nested, elems_all nested f mid' = Some l) ->
+  sem n sc c (pre ++ (num, Len b) :: post) = sem n sc c (pre ++ mid' ++ post).
+Proof. exact sem_packed_toggle. Qed.
+Print Assumptions C02_sem_packed_toggle.
+
+Example C02_sem_chunk_split_nonvacuous :
+  let f := nth 1 ex_fs (plain_field [] 2 TBytes) in
+  slot ex_sc ex_fs (2, Len ([x01; x82; x00] ++ [x03])) = Some (1%nat, f) /\ card_of f = Repeated /\
+  packable (fty f) = true /\ unpack (fty f) [x01; x82; x00] = Some [AInt 1; AInt 2] /\
+  unpack (fty f) [x01; x82] = None /\                                   (* a split inside an element is not a chunk split *)
+  sem 9 ex_sc 11 ([(1, Varint 5)] ++ (2, Len ([x01; x82; x00] ++ [x03])) :: []) <> None.
+Proof. vm_compute. repeat split; discriminate. Qed.
+
+Example C02_sem_packed_toggle_nonvacuous :
+  let f := nth 1 ex_fs (plain_field [] 2 TBytes) in
+  let mid' := [(2, Varint 1); (2, Varint 2); (2, Varint 3)] in
+  unpack (fty f) [x01; x02; x03] = Some [AInt 1; AInt 2; AInt 3] /\
+  all_slot ex_sc ex_fs 1 f mid' /\ (forall nested, elems_all nested f mid' = Some [AInt 1; AInt 2; AInt 3]).
+Proof.
+  cbv zeta. split; [vm_compute; reflexivity|].
+  split; [intros r [<-|[<-|[<-|[]]]]; vm_compute; reflexivity | intros nested; vm_compute; reflexivity].
+Qed.
+
+(* ---- exactness of the side conditions of the re-encoding theorems ---- *)
+(* "valid by itself" in C02_sem_duplicate_scalar: an earlier occurrence with invalid UTF-8 makes the reference reject
+   the message although a later, valid occurrence overrides it (class 12 of ex_sc: k = 1 string) *)
+Theorem C02_sem_duplicate_invalid_refuted :
+  exists sc c pre r post i f n,
+    slot sc (cfields (get_class sc c)) r = Some (i, f) /\ singular_scalar f = true /\
+    later_for sc (cfields (get_class sc c)) i post = true /\
+    is_some (scalar_of (fty f) (snd r)) = false /\
+    sem n sc c (pre ++ r :: post) = None /\ is_some (sem n sc c (pre ++ post)) = true.
+Proof.
+  exists ex_sc, 12%nat, [], (1, Len [xff]), [(1, Len [x41])], 0%nat,
+         (nth 0 (cfields (get_class ex_sc 12)) (plain_field [] 2 TBytes)), 9%nat.
+  vm_compute. repeat split.
+Qed.
+Print Assumptions C02_sem_duplicate_invalid_refuted.
+
+(* [indep] in C02_sem_reorder: two members of one oneof group do not commute (the last one wins) *)
+Theorem C02_sem_reorder_oneof_refuted :
+  exists sc c r1 r2 n,
+    indep sc (cfields (get_class sc c)) r1 r2 = false /\
+    cv_eqb (cv_of_aval_opt (sem n sc c [r1; r2])) (cv_of_aval_opt (sem n sc c [r2; r1])) = false.
+Proof. exists ex_sc, 11%nat, (3, Len [x41]), (4, Varint 7), 9%nat. vm_compute. repeat split. Qed.
+Print Assumptions C02_sem_reorder_oneof_refuted.
+
+(* oneof members, last one wins: an instance (the general theorem for oneof groups is not proved - see the report) *)
+Example C02_sem_oneof_last_wins_instance :
+  fields_of (sem 9 ex_sc 11 [(3, Len [x41]); (4, Varint 7)]) = fields_of (sem 9 ex_sc 11 [(4, Varint 7)]) /\
+  fields_of (sem 9 ex_sc 11 [(4, Varint 1); (3, Len [x41]); (4, Varint 7)]) = fields_of (sem 9 ex_sc 11 [(4, Varint 7)]) /\
+  fields_of (sem 9 ex_sc 11 [(4, Varint 7)]) <> None.
+Proof. vm_compute. repeat split; discriminate. Qed.
